@@ -2,6 +2,7 @@ import ModbusModel.Model.Client
 import ModbusModel.Props.C06
 import ModbusModel.Lemmas.RoundTripRsp
 import ModbusModel.Lemmas.DecodeRange
+import ModbusModel.Model.Sync
 /-
   C20 – Typed reads return exactly the requested number of items or an error.
 -/
@@ -178,5 +179,53 @@ example : (TypedOp.readCoils 0 3).project (.ok (.readCoils [true, false, true, f
     = .ok (.bits [true, false, true]) := by decide
 example : (TypedOp.readHoldingRegisters 0 5).project (.ok (.readHoldingRegisters [1])) = .transport .invalidData := by decide
 example : (TypedOp.writeSingleRegister 1 2).project (.ok (.writeSingleRegister 1 3)) = .transport .invalidData := by decide
+
+/-! ### The typed methods of the blocking client -/
+
+/-- a blocking call that returns a response is an asynchronous call that finished with it -/
+theorem blocking_ok_is_async_ok (s : SyncContext) (req : Request) (t : Transport) (deadline : Budget)
+    (r : Response) (h : (s.call req t deadline).1 = .ok r) :
+    (s.asyncCtx.call req t (if s.timeout then deadline else none)).1 = .done (.ok r) := by
+  cases ho : (s.asyncCtx.call req t (if s.timeout then deadline else none)).1 with
+  | done x => simp [SyncContext.call, ho, withTimeout] at h; rw [h]
+  | abandoned => simp [SyncContext.call, ho, withTimeout] at h
+  | blocked => simp [SyncContext.call, ho, withTimeout] at h
+
+/-- **typed_read_exact through the blocking client** (bits): a blocking typed bit read that reports
+    success returns exactly `cnt` items, the first `cnt` bits of the reply with which the
+    asynchronous call underneath finished -/
+theorem blocking_typed_bits_exact (s : SyncContext) (op : TypedOp) (t : Transport) (deadline : Budget)
+    (bs : List Bool) (h : (s.typed op t deadline).1 = .ok (.bits bs)) :
+    ∃ cnt r cs, TypedOp.count op = some cnt
+      ∧ (s.asyncCtx.call op.request t (if s.timeout then deadline else none)).1 = .done (.ok r)
+      ∧ replyBits r = some cs ∧ r.functionCode = op.request.functionCode
+      ∧ bs.length = cnt.toNat ∧ bs = cs.take cnt.toNat := by
+  have hp : op.project (s.call op.request t deadline).1 = .ok (.bits bs) := by
+    simpa [SyncContext.typed] using h
+  obtain ⟨cnt, r, cs, h1, h2, h3, h4, h5, h6⟩ := typed_bits_exact op _ bs hp
+  exact ⟨cnt, r, cs, h1, blocking_ok_is_async_ok s _ t deadline r h2, h3, h4, h5, h6⟩
+
+/-- **typed_read_exact through the blocking client** (registers) -/
+theorem blocking_typed_words_exact (s : SyncContext) (op : TypedOp) (t : Transport) (deadline : Budget)
+    (ws : List UInt16) (h : (s.typed op t deadline).1 = .ok (.words ws)) :
+    ∃ cnt r, TypedOp.count op = some cnt
+      ∧ (s.asyncCtx.call op.request t (if s.timeout then deadline else none)).1 = .done (.ok r)
+      ∧ replyWords r = some ws ∧ r.functionCode = op.request.functionCode
+      ∧ ws.length = cnt.toNat := by
+  have hp : op.project (s.call op.request t deadline).1 = .ok (.words ws) := by
+    simpa [SyncContext.typed] using h
+  obtain ⟨cnt, r, h1, h2, h3, h4, h5⟩ := typed_words_exact op _ ws hp
+  exact ⟨cnt, r, h1, blocking_ok_is_async_ok s _ t deadline r h2, h3, h4, h5⟩
+
+/-- **typed_write_kind through the blocking client** -/
+theorem blocking_typed_write_kind (s : SyncContext) (op : TypedOp) (t : Transport) (deadline : Budget)
+    (h : (s.typed op t deadline).1 = .ok .unit) :
+    TypedOp.count op = none
+    ∧ ∃ r, (s.asyncCtx.call op.request t (if s.timeout then deadline else none)).1 = .done (.ok r)
+        ∧ r.functionCode = op.request.functionCode := by
+  have hp : op.project (s.call op.request t deadline).1 = .ok .unit := by
+    simpa [SyncContext.typed] using h
+  obtain ⟨h1, r, h2, h3⟩ := typed_write_kind op _ hp
+  exact ⟨h1, r, blocking_ok_is_async_ok s _ t deadline r h2, h3⟩
 
 end Modbus.Props.C20
